@@ -64,6 +64,12 @@ def _network(st, estimation, history, physics, n_steps, save_steps=False):
                            "tasking_engine_id": 1, "agent_id": 20002, "agent_type": "sensor"})
             events.append({"scope": "scenario_step", "scope_instance_id": 0, "start_time": at(5), "event_type": "agent_removal",
                            "tasking_engine_id": 1, "agent_id": 10003, "agent_type": "target"})
+    if history == "time_bias":
+        # a sensor time bias active over steps 2..4: observations made meanwhile are still rows of the run's epochs
+        events.append({"scope": "observation_generation", "scope_instance_id": 20001, "start_time": at(1, 30), "end_time": at(4, 30),
+                       "event_type": "sensor_time_bias", "applied_bias": 0.5})
+        events.append({"scope": "observation_generation", "scope_instance_id": 20002, "start_time": at(2), "end_time": at(n_steps),
+                       "event_type": "sensor_time_bias", "applied_bias": -1.25})
     if history == "maneuver":
         fp["maneuver_detection"] = {"name": "standard_nis", "threshold": 0.05}
         events.append({"scope": "agent_propagation", "scope_instance_id": 10001, "start_time": at(2, -7), "event_type": "impulse",
@@ -116,6 +122,9 @@ def items(tier, seed):
             for pname, plan in (("single", [n]), ("split2", [2, n]), ("each_step", list(range(1, n + 1)))):
                 out.append(("audit", p, o, n, est, "none", pname, plan, False, 2))
     out.append(("audit", 60, 60, n, True, "maneuver", "single", [n], True, 2))
+    for (p, o) in ((60, 60), (60, 300)):
+        out.append(("audit", p, o, n, True, "time_bias", "single", [n], False))
+        out.append(("audit", p, o, n, True, "time_bias", "each_step", list(range(1, n + 1)), False))
     # start instants that are NOT whole seconds (timestamps carry microseconds; Julian dates must follow them)
     for ms in (500, 250):
         out.append(("audit", 60, 60, n, True, "none", "each_step", list(range(1, n + 1)), False, None, ms))
@@ -135,7 +144,7 @@ def items(tier, seed):
 
 def bounds(tier, seed):
     n = 6 if tier == "quick" else 12
-    return {"steps": n, "step_pairs": STEP_PAIRS, "plans": [p for p, _ in _plans(n)], "histories": ["none", "agents", "maneuver"]}
+    return {"steps": n, "step_pairs": STEP_PAIRS, "plans": [p for p, _ in _plans(n)], "histories": ["none", "agents", "maneuver", "time_bias"]}
 
 
 # ------------------------------------------------------------------------------------------------ reference + audit
